@@ -11,11 +11,20 @@
 //!                    M and S are evaluated on the *original* program.
 //!   `n <P> | <WS>`   as `p`, but every word is run with
 //!                    `run_with_options(.., RunOptions { disable_left_boundary: true, .. })`.
+//!   `o <nolb> <ov> <P> | <WS>` as `p`, but every word is run with
+//!                    `RunOptions { disable_left_boundary: nolb != 0, right_boundary_override: ov }`
+//!                    (`ov = -1`: none). M = `runOpt`, S = `interp` with the override as the right
+//!                    boundary of the run.
 //!   `t <P> | <n> c*` the program is installed in a font (`File::replace_lig_kern_program`, the four
 //!                    space parameters set), compiled (`compile_from_tfm_file`) and registered
 //!                    with the real `boxworks_text::TextPreprocessorImpl`; the text (char codes,
 //!                    32 = space) goes through `add_text`; the horizontal list is cut at the
 //!                    glue items and every word's segment is compared with M and S.
+//!   `m <nf> | <font>*nf | <op>*`  several fonts (`prog <P>` built as in `t`, or `file <path>`)
+//!                    registered on ONE `TextPreprocessorImpl`; ops: `1 f` activate_font,
+//!                    `2 n c*` add_text, `3 n c*` add_word, `4` add_space, `5` new_paragraph.
+//!                    Every call gets its own list; every word's segment is judged against the
+//!                    font active at that point (items, glyphs, spelling, font id of each node).
 //!   `f <path>`       a corpus font (path relative to /repo): real bytes through
 //!                    `tfm::File::deserialize` and `CompiledProgram::compile_from_tfm_file`;
 //!                    words = every ruled pair, and every ruled pair followed by a third letter.
@@ -248,6 +257,14 @@ fn show_pairs(s: &BTreeSet<(i64, i64)>) -> String {
     s.iter().map(|(l, r)| format!("({l},{r})")).collect::<Vec<_>>().join(" ")
 }
 
+/// `RunOptions` of a run: `disable_left_boundary`, `right_boundary_override` (-1 = none).
+#[derive(Clone, Copy, PartialEq)]
+struct Opt {
+    no_lb: bool,
+    ov: i64,
+}
+const DEFAULT: Opt = Opt { no_lb: false, ov: -1 };
+
 struct C05 {
     fonts: Vec<String>,
     repo: String,
@@ -334,7 +351,7 @@ impl C05 {
         out: &mut CaseOutcome,
         penc: &str,
         marker: &str,
-        no_lb: bool,
+        opt: Opt,
     ) -> Option<(bool, String)> {
         for f in features(model_prog) {
             out.tag(f);
@@ -418,13 +435,15 @@ impl C05 {
             out.tag("loop:acyclic");
         }
         // ---- running words ----
-        let mut req = format!("{} {penc}", if no_lb { "runsn" } else { "runs" });
         let mut real: Vec<Vec<i64>> = vec![];
         for w in words {
             let s = word_string(w);
             let items = match caught(|| {
-                if no_lb {
-                    let o = tfm::ligkern::RunOptions { disable_left_boundary: true, right_boundary_override: None };
+                if opt != DEFAULT {
+                    let o = tfm::ligkern::RunOptions {
+                        disable_left_boundary: opt.no_lb,
+                        right_boundary_override: if opt.ov < 0 { None } else { char::from_u32(opt.ov as u32) },
+                    };
                     compiled.run_with_options(s.chars(), o).take(MAX_ITEMS).collect::<Vec<RunItem>>()
                 } else {
                     compiled.run(&s).take(MAX_ITEMS).collect::<Vec<RunItem>>()
@@ -448,7 +467,6 @@ impl C05 {
                 return None;
             }
             let e = enc_items(&items);
-            req.push_str(&format!(" | {} {} | {}", w.len(), join(w), join(&e)));
             for it in &items {
                 match it {
                     RunItem::Char(_) => {}
@@ -475,7 +493,7 @@ impl C05 {
         out.tags.sort();
         out.tags.dedup();
         let acyclic = m_loop.is_empty();
-        self.judge(stream, "run", penc, words, &real, acyclic, ph, no_lb, drv, out);
+        self.judge(stream, "run", penc, words, &real, acyclic, ph, opt, drv, out);
         Some((acyclic, ph.to_string()))
     }
 
@@ -491,14 +509,14 @@ impl C05 {
         real: &[Vec<i64>],
         acyclic: bool,
         ph: &str,
-        no_lb: bool,
+        opt: Opt,
         drv: &mut Driver,
         out: &mut CaseOutcome,
     ) {
         if words.is_empty() {
             return;
         }
-        let mut req = format!("{} {penc}", if no_lb { "runsn" } else { "runs" });
+        let mut req = format!("runsx {} {} {penc}", opt.no_lb as i64, opt.ov);
         for (w, e) in words.iter().zip(real) {
             req.push_str(&format!(" | {} {} | {}", w.len(), join(w), join(e)));
         }
@@ -516,7 +534,7 @@ impl C05 {
             }
             let w = &words[k];
             let detail = || {
-                let r = format!("{} {penc} | {} {} | {}", if no_lb { "runn" } else { "run" }, w.len(), join(w), join(&real[k]));
+                let r = format!("runx {} {} {penc} | {} {} | {}", opt.no_lb as i64, opt.ov, w.len(), join(w), join(&real[k]));
                 r
             };
             if m != 1 && !reported[0] {
@@ -597,109 +615,127 @@ impl C05 {
                 out.fail(Kind::ImplPanic, stream, format!("panic {}", strip_msg(&p)), format!("add_text({text:?}) panicked: {p}"));
                 return;
             }
-            let words: Vec<Vec<i64>> = text.split_ascii_whitespace().map(|w| w.chars().map(|c| c as i64).collect()).collect();
-            // cut at glue
-            let mut segs: Vec<Vec<i64>> = vec![vec![]];
-            let mut counts: Vec<i64> = vec![0];
-            let mut prev_hyphen = false;
-            let mut bad: Option<String> = None;
-            for h in &list {
-                match h {
-                    ds::Horizontal::Glue(_) => {
-                        segs.push(vec![]);
-                        counts.push(0);
-                        prev_hyphen = false;
-                        continue;
-                    }
-                    ds::Horizontal::Char(c) => {
-                        segs.last_mut().unwrap().extend([0, c.char as i64]);
-                        *counts.last_mut().unwrap() += 1;
-                        prev_hyphen = c.char == '-';
-                        if c.font != 0 {
-                            bad = Some("character in another font".into());
-                        }
-                    }
-                    ds::Horizontal::Kern(k) => {
-                        out.tag("text:kern");
-                        segs.last_mut().unwrap().extend([1, k.width.0 as i64]);
-                        *counts.last_mut().unwrap() += 1;
-                        prev_hyphen = false;
-                        if k.kind != ds::KernKind::Normal {
-                            bad = Some("kern that is not a font kern".into());
-                        }
-                    }
-                    ds::Horizontal::Ligature(l) => {
-                        let o: Vec<i64> = l.original_chars.chars().map(|c| c as i64).collect();
-                        let seg = segs.last_mut().unwrap();
-                        seg.extend([2, l.char as i64, l.includes_left_boundary as i64, l.includes_right_boundary as i64, o.len() as i64]);
-                        seg.extend(&o);
-                        *counts.last_mut().unwrap() += 1;
-                        prev_hyphen = l.original_chars.ends_with('-');
-                        out.tag("text:ligature");
-                        if l.includes_left_boundary {
-                            out.tag("text:ligature-with-left-boundary");
-                        }
-                        if l.includes_right_boundary {
-                            out.tag("text:ligature-with-right-boundary");
-                        }
-                    }
-                    ds::Horizontal::Discretionary(_) if prev_hyphen => {
-                        // TeX.2021.1035: an empty discretionary after the hyphen char
-                        prev_hyphen = false;
-                        out.tag("text:discretionary-after-hyphen");
-                    }
-                    other => bad = Some(format!("unexpected item {other:?}")),
-                }
+            match cut_segments(&list, text, 0, out) {
+                Err((sig, d)) => out.fail(Kind::ImplVsSpec, stream, sig, d),
+                Ok((words, real)) => self.judge(stream, "text", penc, &words, &real, acyclic, ph, DEFAULT, drv, out),
             }
-            if let Some(b) = bad {
-                out.fail(Kind::ImplVsSpec, stream, "text: item that no lig/kern program produces", format!("text {text:?}: {b}"));
-                continue;
-            }
-            let leading = text.chars().next().map(|c| c.is_ascii_whitespace()).unwrap_or(false);
-            if leading && !words.is_empty() {
-                if !segs[0].is_empty() {
-                    out.fail(Kind::ImplVsSpec, stream, "text: word segmentation differs", format!("text {text:?}: material before the first space"));
-                    continue;
-                }
-                segs.remove(0);
-                counts.remove(0);
-            }
-            if words.is_empty() {
-                segs.retain(|s| !s.is_empty());
-                counts.clear();
-            }
-            if segs.len() != words.len() {
-                out.fail(
-                    Kind::ImplVsSpec,
-                    stream,
-                    "text: word segmentation differs",
-                    format!("text {text:?}: {} words, {} glue-separated segments", words.len(), segs.len()),
-                );
-                continue;
-            }
-            let real: Vec<Vec<i64>> = segs
-                .iter()
-                .zip(&counts)
-                .map(|(s, n)| {
-                    let mut v = vec![*n];
-                    v.extend(s);
-                    v
-                })
-                .collect();
-            for w in &words {
-                out.tag(format!("text:word-len={}", w.len().min(4)));
-            }
-            if leading {
-                out.tag("text:leading-space");
-            }
-            if text.ends_with(' ') {
-                out.tag("text:trailing-space");
-            }
-            self.judge(stream, "text", penc, &words, &real, acyclic, ph, false, drv, out);
         }
         out.tags.sort();
         out.tags.dedup();
     }
+}
+
+/// Cut the horizontal list produced for `text` while font `font` was active at the glue
+/// items: one encoded item list (`n item*`, as `enc_items`) per word of the text. Every
+/// character and ligature node must carry the active font's id; kerns must be font kerns; an
+/// empty discretionary is accepted only directly after a hyphen (TeX.2021.1035).
+#[allow(clippy::type_complexity)]
+fn cut_segments(
+    list: &[boxworks::ds::Horizontal],
+    text: &str,
+    font: u32,
+    out: &mut CaseOutcome,
+) -> Result<(Vec<Vec<i64>>, Vec<Vec<i64>>), (String, String)> {
+    use boxworks::ds;
+    let words: Vec<Vec<i64>> = text.split_ascii_whitespace().map(|w| w.chars().map(|c| c as i64).collect()).collect();
+    let mut segs: Vec<Vec<i64>> = vec![vec![]];
+    let mut counts: Vec<i64> = vec![0];
+    let mut prev_hyphen = false;
+    let mut bad: Option<(String, String)> = None;
+    let wrong_font = |f: u32| {
+        (
+            "text: node carries the id of a font that is not the active one".to_string(),
+            format!("text {text:?}: active font {font}, node font {f}"),
+        )
+    };
+    for h in list {
+        match h {
+            ds::Horizontal::Glue(_) => {
+                segs.push(vec![]);
+                counts.push(0);
+                prev_hyphen = false;
+                continue;
+            }
+            ds::Horizontal::Char(c) => {
+                segs.last_mut().unwrap().extend([0, c.char as i64]);
+                *counts.last_mut().unwrap() += 1;
+                prev_hyphen = c.char == '-';
+                if c.font != font {
+                    bad = Some(wrong_font(c.font));
+                }
+            }
+            ds::Horizontal::Kern(k) => {
+                out.tag("text:kern");
+                segs.last_mut().unwrap().extend([1, k.width.0 as i64]);
+                *counts.last_mut().unwrap() += 1;
+                prev_hyphen = false;
+                if k.kind != ds::KernKind::Normal {
+                    bad = Some(("text: item that no lig/kern program produces".into(), format!("text {text:?}: kern of kind {:?}", k.kind)));
+                }
+            }
+            ds::Horizontal::Ligature(l) => {
+                let o: Vec<i64> = l.original_chars.chars().map(|c| c as i64).collect();
+                let seg = segs.last_mut().unwrap();
+                seg.extend([2, l.char as i64, l.includes_left_boundary as i64, l.includes_right_boundary as i64, o.len() as i64]);
+                seg.extend(&o);
+                *counts.last_mut().unwrap() += 1;
+                prev_hyphen = l.original_chars.ends_with('-');
+                out.tag("text:ligature");
+                if l.includes_left_boundary {
+                    out.tag("text:ligature-with-left-boundary");
+                }
+                if l.includes_right_boundary {
+                    out.tag("text:ligature-with-right-boundary");
+                }
+                if l.font != font {
+                    bad = Some(wrong_font(l.font));
+                }
+            }
+            ds::Horizontal::Discretionary(_) if prev_hyphen => {
+                prev_hyphen = false;
+                out.tag("text:discretionary-after-hyphen");
+            }
+            other => bad = Some(("text: item that no lig/kern program produces".into(), format!("text {text:?}: unexpected item {other:?}"))),
+        }
+    }
+    if let Some(b) = bad {
+        return Err(b);
+    }
+    let seg_err = |d: String| Err(("text: word segmentation differs".to_string(), d));
+    let leading = text.chars().next().map(|c| c.is_ascii_whitespace()).unwrap_or(false);
+    if leading && !words.is_empty() {
+        if !segs[0].is_empty() {
+            return seg_err(format!("text {text:?}: material before the first space"));
+        }
+        segs.remove(0);
+        counts.remove(0);
+    }
+    if words.is_empty() {
+        segs.retain(|s| !s.is_empty());
+        counts.clear();
+    }
+    if segs.len() != words.len() {
+        return seg_err(format!("text {text:?}: {} words, {} glue-separated segments", words.len(), segs.len()));
+    }
+    let real: Vec<Vec<i64>> = segs
+        .iter()
+        .zip(&counts)
+        .map(|(s, n)| {
+            let mut v = vec![*n];
+            v.extend(s);
+            v
+        })
+        .collect();
+    for w in &words {
+        out.tag(format!("text:word-len={}", w.len().min(4)));
+    }
+    if leading {
+        out.tag("text:leading-space");
+    }
+    if text.ends_with(' ') {
+        out.tag("text:trailing-space");
+    }
+    Ok((words, real))
 }
 
 fn trunc(s: &str) -> String {
@@ -824,6 +860,11 @@ fn random_words(rng: &mut Rng, p: &Prog, n: usize, maxlen: u64) -> Vec<Vec<i64>>
         .collect()
 }
 
+/// SLANT, SPACE, STRETCH, SHRINK, XHEIGHT, QUAD, EXTRASPACE (`register_font` reads four of them).
+fn space_params() -> Vec<FixWord> {
+    vec![FixWord::ZERO, FixWord(349526), FixWord(174763), FixWord(116509), FixWord(451508), FixWord::ONE, FixWord(116509)]
+}
+
 /// A program that `replace_lig_kern_program` is specified for: no redirect words of its own,
 /// kerns by value, entry points and SKIPs inside the program.
 fn make_valid(p: &mut Prog) {
@@ -883,7 +924,9 @@ impl Property for C05 {
         "p: every program over {a,b,c} with one rule (12 pairs incl. left boundary x (8 ligature forms x 3 letters + kern)) x right boundary none/'a', each on every word of length 1..4 (exhaustive); \
          two- and three-rule programs over the same space (sampled in quick, two-rule exhaustive on words <= 3 in thorough); random programs (<= 12 instructions, alphabet 2..5, SKIP n / STOP chains, shared and out-of-range entry points, left-boundary entry, right boundary char inside or outside the alphabet, Kern / KernAtIndex incl. missing index, rare redirect words) on random words <= 10 (incl. foreign and non-u8 chars); \
          n: random programs and a third of the one-rule programs run with disable_left_boundary; \
+         o: half (thorough: all) of the one-rule programs x font boundary none/'a' x override 'a'/'b'/'z' x left boundary on/disabled on all words <= 3, and random programs under a random override (none, the font boundary, a right char of some rule, 'z', '|', a non-u8 char) and random disable_left_boundary; \
          t: every one-rule program x right boundary none/'a' on a text of all 12 words of one and two letters, and random valid programs on random texts (half the words one letter; double, leading, trailing spaces), through the real boxworks_text::TextPreprocessorImpl::add_text; every corpus font also through add_text on its own boundary pairs as one-letter words; \
+         m: two one-rule fonts (and 2..3 random valid programs) on one preprocessor under scripts of add_text / add_word / add_space / new_paragraph with activate_font between them, words drawn from a small pool so that every word recurs under the same and under another font; one builtin case with smfebsl10 + cmr10; \
          k: random programs through the real replace_lig_kern_program/compile_from_tfm_file (pack_entrypoints, unpack_entrypoint), a quarter padded to > 255 instructions; f: every corpus .tfm through deserialize + compile_from_tfm_file on every ruled pair and ruled pair + third letter. \
          Non-trivial = the program has at least one rule that applies to some word of the case (some output item is a kern or ligature, or a pair loops); distinct = distinct case string."
             .into()
@@ -898,6 +941,18 @@ impl Property for C05 {
         v.push(compact("|a -> _A^a\na| -> a^Z_\naZ -> a[3]Z", &["a", "aa", "ba"]));
         // every retaining form once
         v.push(compact("ab -> a^xb\nax -> a[1]x\nxb -> xyb^\nbc -> b^z_\nbz -> bw^_", &["ab", "abc", "abcab"]));
+        // two real fonts on one preprocessor: smfebsl10 has left- and right-boundary rules
+        // ("7" alone becomes `$ 7 #`), cmr10 has none; the same words under both, back and forth
+        {
+            let t = |code: i64, s: &str| {
+                let v: Vec<i64> = s.chars().map(|c| c as i64).collect();
+                format!("{code} {} {}", v.len(), join(&v))
+            };
+            v.push(format!(
+                "m 2 | file crates/tfm/corpus/ctan/smfebsl10-3.tfm | file crates/tfm/corpus/computer-modern/cmr10.tfm | {}",
+                [t(2, "7 fi ff 7 AV"), "1 1".into(), t(2, "7 fi ff 7 AV"), "1 0".into(), t(3, "7"), "1 1".into(), t(3, "7"), t(3, "fi"), "1 0".into(), t(3, "fi"), t(2, " AV 7 ")].join(" | ")
+            ));
+        }
         // chain that revisits a character but not a pair (must not be reported as a loop)
         v.push(compact("ab -> _b^b\nbb -> _a^b", &["ab", "bb", "abb"]));
         v
@@ -969,6 +1024,35 @@ impl Property for C05 {
                 v.push(case_of("n", &prog_of_rules(&[*r], A), &WordSet::All(3, abc.clone())));
             }
         }
+        // o: RunOptions. Every override kind (the font boundary itself, another character with
+        // rules, a character without rules, a char that is not a u8, none) x font with / without
+        // boundary char x left boundary on / disabled.
+        let mut ro = rng.fork();
+        for (i, r) in rules.iter().enumerate() {
+            if i % 2 == 0 || ctx.thorough {
+                for rb in [-1, A] {
+                    for ov in [A, A + 1, 122] {
+                        for nolb in [0, 1] {
+                            v.push(format!("o {nolb} {ov} {}", &case_of("p", &prog_of_rules(&[*r], rb), &WordSet::All(3, abc.clone()))[2..]));
+                        }
+                    }
+                }
+            }
+        }
+        for _ in 0..nr / 3 {
+            let p = random_prog(&mut ro);
+            let ws = random_words(&mut ro, &p, 10, 8);
+            let mut ovs: Vec<i64> = vec![-1, 122, 0x131, 124];
+            if p.rb >= 0 {
+                ovs.extend([p.rb, p.rb]);
+            }
+            for i in &p.instrs {
+                ovs.push(i[1]);
+            }
+            let ov = *ro.pick(&ovs);
+            let nolb = ro.below(2);
+            v.push(format!("o {nolb} {ov} {}", &case_of("p", &p, &WordSet::List(ws))[2..]));
+        }
         // t: the boxworks-text call site. Every one-rule program (boundary rules included) on
         // a text of all words of one and two letters; random valid programs on random texts
         // with many one-letter words, double spaces, leading and trailing spaces.
@@ -1000,6 +1084,72 @@ impl Property for C05 {
             }
             let text = text_of(&mut rt, &ws);
             v.push(format!("t {} | {} {}", join(&p.enc()), text.len(), join(&text)));
+        }
+        // m: several fonts on ONE preprocessor, repeated words, font switches between and within
+        // texts (activate_font between add_text / add_word / add_space calls), back and forth.
+        let mut rm = rng.fork();
+        let enc_text = |code: i64, t: &[i64]| format!("{code} {} {}", t.len(), join(t));
+        let (n_m1, n_m2) = if ctx.thorough { (6_000, 10_000) } else { (600, 1_000) };
+        for _ in 0..n_m1 {
+            let a = *rm.pick(&rules);
+            let b = *rm.pick(&rules);
+            let rb = *rm.pick(&[-1, A]);
+            let mut ws = all12.clone();
+            let k = rm.below(ws.len() as u64) as usize;
+            ws.rotate_left(k);
+            let w1 = ws[0].clone();
+            let script = vec![
+                enc_text(2, &text_of(&mut rm, &ws)),
+                "1 1".to_string(),
+                enc_text(2, &text_of(&mut rm, &ws)),
+                "1 0".to_string(),
+                enc_text(3, &w1),
+                "1 1".to_string(),
+                enc_text(3, &w1),
+                "4".to_string(),
+                enc_text(2, &text_of(&mut rm, &ws[..4])),
+                "1 0".to_string(),
+                enc_text(2, &text_of(&mut rm, &ws[..4])),
+            ];
+            v.push(format!(
+                "m 2 | prog {} | prog {} | {}",
+                join(&prog_of_rules(&[a], rb).enc()),
+                join(&prog_of_rules(&[b], *rm.pick(&[-1, A, A + 1])).enc()),
+                script.join(" | ")
+            ));
+        }
+        for _ in 0..n_m2 {
+            let nf = 2 + rm.below(2) as usize;
+            let progs: Vec<Prog> = (0..nf)
+                .map(|_| {
+                    let mut p = random_prog(&mut rm);
+                    make_valid(&mut p);
+                    p
+                })
+                .collect();
+            let mut pool: Vec<Vec<i64>> = vec![];
+            for p in &progs {
+                for len in [1u64, 2, 3] {
+                    pool.extend(random_words(&mut rm, p, 1, len));
+                }
+            }
+            let mut script: Vec<String> = vec![];
+            let n_ops = 8 + rm.below(9);
+            for _ in 0..n_ops {
+                match rm.below(20) {
+                    0..=7 => {
+                        let n = 1 + rm.below(5) as usize;
+                        let ws: Vec<Vec<i64>> = (0..n).map(|_| rm.pick(&pool).clone()).collect();
+                        script.push(enc_text(2, &text_of(&mut rm, &ws)));
+                    }
+                    8..=12 => script.push(format!("1 {}", rm.below(nf as u64))),
+                    13..=16 => script.push(enc_text(3, &rm.pick(&pool).clone())),
+                    17..=18 => script.push("4".to_string()),
+                    _ => script.push("5".to_string()),
+                }
+            }
+            let fonts: Vec<String> = progs.iter().map(|p| format!("prog {}", join(&p.enc()))).collect();
+            v.push(format!("m {nf} | {} | {}", fonts.join(" | "), script.join(" | ")));
         }
         let mut rk = rng.fork();
         for _ in 0..nk {
@@ -1045,11 +1195,40 @@ impl Property for C05 {
         let mut out = CaseOutcome::default();
         let (cmd, rest) = case.split_once(' ').unwrap_or((case, ""));
         match cmd {
-            "p" | "k" | "n" => {
+            "p" | "k" | "n" | "o" => {
+                // `o <nolb> <ov> <P> | <WS>`: the `p` stream under explicit `RunOptions`
+                let (opt, rest) = if cmd == "o" {
+                    let mut it = rest.splitn(3, ' ');
+                    let a: i64 = it.next().unwrap().parse().expect("nolb");
+                    let b: i64 = it.next().unwrap().parse().expect("override");
+                    (Opt { no_lb: a != 0, ov: b }, it.next().unwrap_or(""))
+                } else {
+                    (Opt { no_lb: cmd == "n", ov: -1 }, rest)
+                };
+                if cmd == "o" {
+                    out.tag("stream:run-options");
+                    out.tag(format!("options:left-boundary={}", if opt.no_lb { "disabled" } else { "on" }));
+                }
                 let parts: Vec<&str> = rest.split('|').collect();
                 let prog = Prog::dec(&parse_i64s(parts[0]));
                 let ws = WordSet::dec(&parts[1..]);
                 let words = ws.words();
+                if cmd == "o" {
+                    let has_rules = prog.instrs.iter().any(|i| i[1] == opt.ov);
+                    out.tag(format!(
+                        "options:override={}/font-boundary={}",
+                        if opt.ov < 0 {
+                            "none"
+                        } else if opt.ov == prog.rb {
+                            "the-font-boundary"
+                        } else if has_rules {
+                            "other-char-with-rules"
+                        } else {
+                            "char-without-rules"
+                        },
+                        if prog.rb >= 0 { "yes" } else { "no" }
+                    ));
+                }
                 let (real, entries, kerns) = prog.to_real();
                 let ds = design_size();
                 // C05-b: with a boundary char (or > 255 instructions) pack_entrypoints rotates the
@@ -1085,7 +1264,7 @@ impl Property for C05 {
                             out.tag(format!("pack:redirect-words={}", n_redirect.min(3)));
                             match prog.enc_scaled(ds) {
                                 Ok(e) => {
-                                    self.compare("pack", &prog, &cp, &errs, &words, drv, &mut out, &join(&e), marker, cmd == "n");
+                                    self.compare("pack", &prog, &cp, &errs, &words, drv, &mut out, &join(&e), marker, opt);
                                 }
                                 Err(_) => out.tag("skipped:to_scaled-panic(C17)"),
                             }
@@ -1100,7 +1279,7 @@ impl Property for C05 {
                         Err(p) => out.fail(Kind::ImplPanic, "compile", format!("panic {}", strip_msg(&p)), format!("compile panicked: {p}")),
                         Ok((cp, errs)) => match prog.enc_scaled(ds) {
                             Ok(e) => {
-                                self.compare(if cmd == "n" { "no-left-boundary" } else { "prog" }, &prog, &cp, &errs, &words, drv, &mut out, &join(&e), marker, cmd == "n");
+                                self.compare(if cmd == "n" { "no-left-boundary" } else if cmd == "o" { "options" } else { "prog" }, &prog, &cp, &errs, &words, drv, &mut out, &join(&e), marker, opt);
                             }
                             Err(_) => out.tag("skipped:to_scaled-panic(C17)"),
                         },
@@ -1122,7 +1301,7 @@ impl Property for C05 {
                 let r = caught(|| {
                     let mut f = tfm::File::default();
                     f.header.design_size = ds;
-                    f.params = vec![FixWord::ZERO, FixWord(349526), FixWord(174763), FixWord(116509), FixWord(451508), FixWord::ONE, FixWord(116509)];
+                    f.params = space_params();
                     f.replace_lig_kern_program(real.clone(), entries.clone());
                     let (cp, errs) = CompiledProgram::compile_from_tfm_file(&mut f);
                     (f, cp, errs)
@@ -1132,7 +1311,7 @@ impl Property for C05 {
                     Ok((f, cp, errs)) => match prog.enc_scaled(ds) {
                         Ok(e) => {
                             let penc = join(&e);
-                            if let Some((acyclic, ph)) = self.compare("text", &prog, &cp, &errs, &[], drv, &mut out, &penc, "", false) {
+                            if let Some((acyclic, ph)) = self.compare("text", &prog, &cp, &errs, &[], drv, &mut out, &penc, "", DEFAULT) {
                                 self.text_check("text", &penc, &f, &cp, &[text], acyclic, &ph, drv, &mut out);
                             }
                         }
@@ -1140,6 +1319,146 @@ impl Property for C05 {
                     },
                 }
                 out.nontrivial = out.tags.iter().any(|t| t == "text:ligature" || t == "text:kern" || t == "loop:some-pair-loops");
+                out
+            }
+            "m" => {
+                out.tag("stream:multi-font-preprocessor");
+                use boxworks::ds;
+                use boxworks::TextPreprocessor;
+                let parts: Vec<&str> = rest.split('|').map(str::trim).collect();
+                let nf: usize = parts[0].parse().expect("number of fonts");
+                struct FontCtx {
+                    file: tfm::File,
+                    cp: CompiledProgram,
+                    penc: String,
+                    acyclic: bool,
+                    ph: String,
+                }
+                let mut fonts: Vec<FontCtx> = vec![];
+                for spec in &parts[1..1 + nf] {
+                    if let Some(ints) = spec.strip_prefix("prog ") {
+                        let prog = Prog::dec(&parse_i64s(ints));
+                        let (real, entries, _) = prog.to_real();
+                        let ds = design_size();
+                        let r = caught(|| {
+                            let mut f = tfm::File::default();
+                            f.header.design_size = ds;
+                            f.params = space_params();
+                            f.replace_lig_kern_program(real.clone(), entries.clone());
+                            let (cp, errs) = CompiledProgram::compile_from_tfm_file(&mut f);
+                            (f, cp, errs)
+                        });
+                        let (file, cp, errs) = match r {
+                            Ok(x) => x,
+                            Err(p) => {
+                                out.fail(Kind::ImplPanic, "multi-font", format!("panic {}", strip_msg(&p)), format!("building the font panicked: {p}"));
+                                return out;
+                            }
+                        };
+                        let Ok(e) = prog.enc_scaled(ds) else {
+                            out.tag("skipped:to_scaled-panic(C17)");
+                            return out;
+                        };
+                        let penc = join(&e);
+                        let Some((acyclic, ph)) = self.compare("multi-font", &prog, &cp, &errs, &[], drv, &mut out, &penc, "", DEFAULT) else {
+                            return out;
+                        };
+                        fonts.push(FontCtx { file, cp, penc, acyclic, ph });
+                    } else if let Some(path) = spec.strip_prefix("file ") {
+                        let Some((file, cp, errs, q)) = self.load_font_file(path.trim(), &mut out) else {
+                            return out;
+                        };
+                        let penc = join(&q.enc());
+                        let Some((acyclic, ph)) = self.compare("multi-font", &q, &cp, &errs, &[], drv, &mut out, &penc, "", DEFAULT) else {
+                            return out;
+                        };
+                        fonts.push(FontCtx { file, cp, penc, acyclic, ph });
+                    } else {
+                        panic!("bad font spec {spec}");
+                    }
+                }
+                let tp = caught(|| {
+                    let mut tp = boxworks_text::TextPreprocessorImpl::new(boxworks_text::Params::plain_tex_defaults());
+                    for (i, f) in fonts.iter().enumerate() {
+                        tp.register_font(i as u32, &f.file, f.cp.clone());
+                    }
+                    tp
+                });
+                let Ok(mut tp) = tp else {
+                    out.tag("text:skipped(font lacks the space parameters)");
+                    return out;
+                };
+                // one preprocessor, all fonts; every call gets its own list, so that a word's
+                // nodes are attributed to the font that was active when it was added
+                let mut cur: usize = 0;
+                let mut acc: Vec<(Vec<Vec<i64>>, Vec<Vec<i64>>)> = vec![(vec![], vec![]); nf];
+                let mut seen: HashMap<Vec<i64>, usize> = HashMap::new();
+                for op in &parts[1 + nf..] {
+                    let v = parse_i64s(op);
+                    let Some(code) = v.first() else { continue };
+                    let mut list: Vec<ds::Horizontal> = vec![];
+                    let text = if *code == 2 || *code == 3 { word_string(&v[2..2 + v[1] as usize]) } else { String::new() };
+                    let r = caught(|| match *code {
+                        1 => tp.activate_font(v[1] as u32),
+                        2 => tp.add_text(&text, &mut list),
+                        3 => tp.add_word(&text, &mut list),
+                        4 => tp.add_space(&mut list),
+                        _ => tp.new_paragraph(),
+                    });
+                    if let Err(p) = r {
+                        out.fail(Kind::ImplPanic, "multi-font", format!("panic {}", strip_msg(&p)), format!("op {op:?} panicked: {p}"));
+                        return out;
+                    }
+                    match *code {
+                        1 => {
+                            if cur != v[1] as usize {
+                                out.tag("multi:font-switch");
+                            }
+                            cur = v[1] as usize;
+                            if !list.is_empty() {
+                                out.fail(Kind::ImplVsSpec, "multi-font", "text: item that no lig/kern program produces", "activate_font produced nodes".to_string());
+                            }
+                        }
+                        2 | 3 => {
+                            out.tag(if *code == 2 { "multi:add_text" } else { "multi:add_word" });
+                            match cut_segments(&list, &text, cur as u32, &mut out) {
+                                Err((sig, d)) => {
+                                    out.fail(Kind::ImplVsSpec, "multi-font", sig, d);
+                                    return out;
+                                }
+                                Ok((words, real)) => {
+                                    for w in &words {
+                                        match seen.insert(w.clone(), cur) {
+                                            Some(f) if f != cur => out.tag("multi:word-repeated-under-another-font"),
+                                            Some(_) => out.tag("multi:word-repeated-under-the-same-font"),
+                                            None => {}
+                                        }
+                                    }
+                                    acc[cur].0.extend(words);
+                                    acc[cur].1.extend(real);
+                                }
+                            }
+                        }
+                        4 => {
+                            out.tag("multi:add_space");
+                            if !(list.len() == 1 && matches!(list[0], ds::Horizontal::Glue(_))) {
+                                out.fail(Kind::ImplVsSpec, "multi-font", "text: word segmentation differs", format!("add_space produced {list:?}"));
+                            }
+                        }
+                        _ => {
+                            if !list.is_empty() {
+                                out.fail(Kind::ImplVsSpec, "multi-font", "text: item that no lig/kern program produces", "new_paragraph produced nodes".to_string());
+                            }
+                        }
+                    }
+                }
+                for (i, f) in fonts.iter().enumerate() {
+                    let (words, real) = &acc[i];
+                    self.judge("multi-font", "text", &f.penc, words, real, f.acyclic, &f.ph, DEFAULT, drv, &mut out);
+                }
+                out.tags.sort();
+                out.tags.dedup();
+                out.nontrivial = out.tags.iter().any(|t| t == "text:ligature" || t == "text:kern");
                 out
             }
             "f" => {
@@ -1195,7 +1514,7 @@ impl Property for C05 {
                         }
                         out.tag(format!("font:ruled-pairs~{}", bucket(tab.pairs.len())));
                         let penc = join(&q.enc());
-                        if let Some((acyclic, ph)) = self.compare("font", &q, &cp, &errs, &words, drv, &mut out, &penc, "", false) {
+                        if let Some((acyclic, ph)) = self.compare("font", &q, &cp, &errs, &words, drv, &mut out, &penc, "", DEFAULT) {
                             // the same font through the boxworks-text call site: texts made of the
                             // font's own ruled pairs as words of one, two and three characters
                             // (a one-character word is the only way to meet the pairs
@@ -1240,6 +1559,50 @@ impl Property for C05 {
     fn shrink(&self, case: &str) -> Vec<String> {
         let (cmd, rest) = case.split_once(' ').unwrap_or((case, ""));
         let mut c = vec![];
+        if cmd == "m" {
+            let parts: Vec<&str> = rest.split('|').map(str::trim).collect();
+            let nf: usize = parts[0].parse().unwrap_or(0);
+            let ops = &parts[1 + nf..];
+            // drop halves of the script, then single ops
+            let mk = |keep: &dyn Fn(usize) -> bool| {
+                let mut p: Vec<&str> = parts[..1 + nf].to_vec();
+                p.extend(ops.iter().enumerate().filter(|(i, _)| keep(*i)).map(|(_, o)| *o));
+                format!("m {}", p.join(" | "))
+            };
+            if ops.len() > 1 {
+                let h = ops.len() / 2;
+                c.push(mk(&|i| i < h));
+                c.push(mk(&|i| i >= h));
+                for k in 0..ops.len() {
+                    c.push(mk(&|i| i != k));
+                }
+            }
+            // shorten texts to single words
+            for (k, op) in ops.iter().enumerate() {
+                let v = parse_i64s(op);
+                if v.first() == Some(&2) {
+                    let text = &v[2..2 + v[1] as usize];
+                    let words: Vec<&[i64]> = text.split(|c| *c == 32).filter(|w| !w.is_empty()).collect();
+                    if words.len() > 1 {
+                        for w in words {
+                            let mut p: Vec<String> = parts.iter().map(|x| x.to_string()).collect();
+                            p[1 + nf + k] = format!("2 {} {}", w.len(), join(w));
+                            c.push(format!("m {}", p.join(" | ")));
+                        }
+                    }
+                }
+            }
+            return c;
+        }
+        if cmd == "o" {
+            let mut it = rest.splitn(3, ' ');
+            let (a, b, r) = (it.next().unwrap_or("0"), it.next().unwrap_or("-1"), it.next().unwrap_or(""));
+            return self
+                .shrink(&format!("p {r}"))
+                .into_iter()
+                .map(|x| format!("o {a} {b} {}", &x[2..]))
+                .collect();
+        }
         if cmd == "t" {
             let parts: Vec<&str> = rest.split('|').collect();
             let prog = Prog::dec(&parse_i64s(parts[0]));
@@ -1348,6 +1711,51 @@ fn bucket(n: usize) -> &'static str {
 }
 
 impl C05 {
+    /// A corpus font the way the `f` stream loads it: real bytes, `File::deserialize`,
+    /// `compile_from_tfm_file`; the program as Lean sees it (entry points unpacked by the real
+    /// code, kerns scaled with the font's design size).
+    #[allow(clippy::type_complexity)]
+    fn load_font_file(&self, rel: &str, out: &mut CaseOutcome) -> Option<(tfm::File, CompiledProgram, Vec<tfm::ligkern::InfiniteLoopError>, Prog)> {
+        let path = format!("{}/{}", self.repo(), rel);
+        let bytes = std::fs::read(&path).unwrap_or_else(|e| panic!("cannot read {path}: {e}"));
+        let r = caught(|| {
+            let (f, _) = tfm::File::deserialize(&bytes);
+            f.ok().map(|mut f| {
+                let (cp, errs) = CompiledProgram::compile_from_tfm_file(&mut f);
+                (f, cp, errs)
+            })
+        });
+        match r {
+            Err(p) => {
+                out.fail(Kind::ImplPanic, "font", format!("panic {}", strip_msg(&p)), format!("{rel}: {p}"));
+                None
+            }
+            Ok(None) => {
+                out.tag("font:does-not-deserialize");
+                None
+            }
+            Ok(Some((mut f, cp, errs))) => {
+                let entries: HashMap<Char, u16> = f
+                    .lig_kern_entrypoints()
+                    .into_iter()
+                    .filter_map(|(c, e)| f.lig_kern_program.unpack_entrypoint(e).ok().map(|e| (c, e)))
+                    .collect();
+                let mut q = Prog::from_real(&f.lig_kern_program, &entries, &f.kerns);
+                let ds = f.header.design_size;
+                let ok = caught(|| {
+                    for k in q.kerns.iter_mut() {
+                        *k = FixWord(*k as i32).to_scaled(ds).0 as i64;
+                    }
+                });
+                if ok.is_err() {
+                    out.tag("skipped:to_scaled-panic(C17)");
+                    return None;
+                }
+                Some((f, cp, errs, q))
+            }
+        }
+    }
+
     fn repo(&self) -> String {
         self.repo.clone()
     }
